@@ -407,6 +407,67 @@ func runC19(r *Run) {
 			r.check(okN, "match:requires-"+nd.name, r.fpos(m), "match can only answer true when "+nd.name+" holds", "subdomain.match can answer true without "+nd.name+": an origin that merely contains the allowed domain, or is too short to hold both parts, is allowed")
 		}
 	})
+
+	r.rule("R6", "normalizeOrigin keeps scheme and host as parsed: the normalised origin is lower(Scheme + \"://\" + Host) with nothing cut out of the host (E3 backwards)", func() {
+		f := r.Fn(corsPkg, "normalizeOrigin")
+		n := 0
+		for _, in := range instrsWhereOne(f, isReturn) {
+			ret := in.(*ssa.Return)
+			if len(ret.Results) != 2 {
+				continue
+			}
+			v := retOperand(ret, 1)
+			if s, ok := constString(asConst(v)); ok && s == "" {
+				continue
+			}
+			n++
+			okShape, why := true, ""
+			hasScheme, hasHost := false, false
+			var leaves func(x ssa.Value)
+			leaves = func(x ssa.Value) {
+				x = stripValue(x)
+				if c, ok := x.(*ssa.Call); ok && calleeName(&c.Call) == "strings.ToLower" {
+					leaves(c.Call.Args[0])
+					return
+				}
+				if b, ok := x.(*ssa.BinOp); ok && b.Op == token.ADD {
+					leaves(b.X)
+					leaves(b.Y)
+					return
+				}
+				if ph, ok := x.(*ssa.Phi); ok {
+					for _, e := range ph.Edges {
+						leaves(e)
+					}
+					return
+				}
+				switch {
+				case loadOfField(x, "url.URL.Scheme"):
+					hasScheme = true
+				case loadOfField(x, "url.URL.Host"):
+					hasHost = true
+				case asConst(x) != nil:
+					if s, _ := constString(asConst(x)); s != "://" {
+						okShape, why = false, "constant "+s
+					}
+				default:
+					if u, isLoad := x.(*ssa.UnOp); isLoad && u.Op == token.MUL {
+						if al := rootAlloc(u.X); al != nil {
+							for _, st := range storesInto(al) {
+								leaves(st.Val)
+							}
+							return
+						}
+					}
+					okShape, why = false, "a value that is not the parsed scheme or host ("+x.Name()+")"
+				}
+			}
+			leaves(v)
+			r.check(okShape && hasScheme && hasHost, fmt.Sprintf("normalizeOrigin:return#%d:scheme-and-host-verbatim", n), r.pos(in), "the normalised origin is built from the parsed Scheme, \"://\" and the parsed Host only",
+				"the normalised origin is built from "+why+": a configured origin is stored as a different origin than written (e.g. with its port dropped), so requests from that other origin are allowed")
+		}
+		r.atLeast("non-empty returns of normalizeOrigin", n, 1)
+	})
 }
 
 // corsPermitEdges lists the CFG edges of f on which `origin` is known to be permitted: equality
